@@ -418,6 +418,14 @@ func checkHistory(r *reporter, k *Kind, memo *isoMemo, hist []Op) *world {
 					changesString(un)), cs)
 		}
 
+		// what the statement fixes absolutely for this kind (the differential oracles below are blind to state shared by
+		// the whole process, which an isolated build shares as well)
+		if k.Expect != nil {
+			if why := k.Expect(w.ovs[last.Obj], p.Name, beh); why != "" {
+				r.violation("behaviour-not-that-of-the-own-configuration/"+k.Name+"/"+orP(w.ovs[last.Obj]), hs+": "+why, cs)
+			}
+		}
+
 		iso := memo.get(k, w.ovs[last.Obj], p, snap)
 		if iso != beh {
 			cls, got, want := firstDiff(beh, iso)
